@@ -28,6 +28,10 @@ def alloc_jobs(tier):
         js.append(Job("alloc._pixman_multiply_overflows_int", "C04/alloc.c", defines={"VC_FN": 4}, kind="proof",
                   functions=["_pixman_multiply_overflows_int"], assumptions=[A_DIV], timeout=3600, min_props=2,
                   domain="every a, b in 2^32 (b != 0): FALSE => a*b <= INT32_MAX; TRUE => a*b > INT32_MAX - b"))
+    js.append(Job("alloc._pixman_multiply_overflows_int.b16", "C04/alloc.c", defines={"VC_FN": 4, "VC_BMAX": 65535}, kind="bounded",
+                  bound="b < 2^16 (every a): the full 32-bit query takes ~10 min and runs in the thorough tier",
+                  functions=["_pixman_multiply_overflows_int"], assumptions=[A_DIV], timeout=1800, min_props=2,
+                  domain="every a in 2^32, 1 <= b < 2^16"))
     js.append(Job("alloc._pixman_addition_overflows_int", "C04/alloc.c", defines={"VC_FN": 6}, kind="proof",
                   functions=["_pixman_addition_overflows_int"], timeout=300, min_props=1,
                   assumptions=["_pixman_addition_overflows_int: b <= INT32_MAX (its only caller passes 0x1f; for b > INT32_MAX `INT32_MAX - b` wraps and the answer is wrong)"],
